@@ -19,8 +19,8 @@ secrets, and additional random programs of cells (including two requests in flig
 two bearers at the same time).
 
 Failure signatures: <clause>/<refusal class>/<ATT operation>, clauses disclosed / changed /
-unanswered / bad_answer / over_blocked.  The triggers of known finding F11a (nothing looks at
-the READABLE / WRITEABLE bits; Bumble's profiles and tests depend on that) are excluded by
+unanswered / bad_answer / over_blocked.  The triggers of known finding F11a (a value with no read
+permission bit at all is returned to the peer; a pinned test depends on that) are excluded by
 construction and counted, see KNOWN_TRIGGERS.
 """
 
@@ -75,12 +75,17 @@ ASSUMPTIONS = [
     'value lengths are chosen so that a granted multi-attribute response fits ATT_MTU without '
     'truncation (truncation format is property C10)',
     'a response PDU to a Write Command is not judged here (C10); only the value and disclosure are',
-    'known finding F11a (the server never looks at READABLE/WRITEABLE; Bumble\'s own profiles and tests rely '
-    'on it): cells whose only reason for refusal is the missing READABLE bit, or the missing WRITEABLE bit '
-    'while a write requirement bit is set and met, are not run; they are counted under '
-    'excluded_by_known_finding (a few are run when known_findings.json lists the signature, to print the '
-    'KNOWN-FINDING line). Writes to attributes with no write permission bit at all (declarations, '
-    'read-only values) are judged',
+    'what "readable"/"writable" means when a requirement bit is set without the plain bit is not settled by the '
+    'property text: six profiles shipped in bumble/profiles declare e.g. permissions=READ_REQUIRES_ENCRYPTION alone '
+    'for values that are meant to be read over an encrypted link. Cells whose only reason for refusal is the '
+    'missing READABLE (WRITEABLE) bit while a read (write) requirement bit is set and met are therefore judged under '
+    'both readings and pass if either holds (grant with the value delivered / the write taking effect, or refusal '
+    'with Read/Write Not Permitted); they still have to be answered',
+    'known finding F11a: a value with no read permission bit at all (e.g. WRITEABLE only, or Permissions(0)) is '
+    'returned on every read path; tests/heart_rate_service_test.py::test_read_measurement pins it. Those cells are '
+    'not run; they are counted under excluded_by_known_finding (a few are run when known_findings.json lists the '
+    'signature, to print the KNOWN-FINDING line). Writes to attributes with no write permission bit at all '
+    '(declarations, read-only values) are judged',
 ]
 SHRINK_KEYS = ('cells',)
 
@@ -136,10 +141,15 @@ DEFAULT_WORLD = {
 # ---------------------------------------------------------------------------
 # reference rule (straight from the property text)
 # ---------------------------------------------------------------------------
+# Convention of the code base (see ASSUMPTIONS): a requirement bit of a direction designates the attribute as
+# accessible in that direction once the requirement is met, with or without the plain READABLE/WRITEABLE bit.
+_convention = [False]
+
+
 def may_read(mask: int, sec: int) -> bool:
     encrypted, authenticated = sec >= 1, sec >= 2
     return bool(
-        mask & READABLE
+        mask & (READABLE | ((R_ENC | R_AUTHN | R_AUTHZ) if _convention[0] else 0))
         and (not mask & R_ENC or encrypted)
         and (not mask & R_AUTHN or authenticated)
         and not mask & R_AUTHZ
@@ -149,7 +159,7 @@ def may_read(mask: int, sec: int) -> bool:
 def may_write(mask: int, sec: int) -> bool:
     encrypted, authenticated = sec >= 1, sec >= 2
     return bool(
-        mask & WRITEABLE
+        mask & (WRITEABLE | ((W_ENC | W_AUTHN | W_AUTHZ) if _convention[0] else 0))
         and (not mask & W_ENC or encrypted)
         and (not mask & W_AUTHN or authenticated)
         and not mask & W_AUTHZ
@@ -184,13 +194,13 @@ def refusal(mask: int, sec: int, write: bool):
     return codes, ('plain_bit' if mask & (enc | authn | authz) else 'no_permission_bit')
 
 
-# Known finding F11a (see the final report): the server never looks at the READABLE / WRITEABLE bits.
-# Its triggers are excluded by construction (counted with ctx.exclude) unless known_findings.json
-# lists the signature, in which case a few are run so that the KNOWN-FINDING line is printed.
+# Known finding F11a: on the read paths the server never looks at the permission bits of an attribute that has no
+# read bit at all (a write-only value is returned to the peer); tests/heart_rate_service_test.py::test_read_measurement
+# pins this (it reads a characteristic declared with Permissions(0)). Its triggers are excluded by construction
+# (counted with ctx.exclude) unless known_findings.json lists the signature, in which case a few are run so that
+# the KNOWN-FINDING line is printed.
 KNOWN_TRIGGERS = {
-    'F11a/read_without_READABLE_requirements_met': 'disclosed/plain_bit/read_paths',
     'F11a/read_with_no_read_permission_bit': 'disclosed/no_permission_bit/read_paths',
-    'F11a/write_without_WRITEABLE_requirements_met': 'changed/plain_bit/write_paths',
 }
 _listed: dict = {}
 _reproduced: dict = {}
@@ -198,13 +208,9 @@ _reproduced: dict = {}
 
 def known_trigger(cell):
     _kind, mask, sec, path, _bearer = cell
-    write = path in WRITE_PATHS
-    if (may_write if write else may_read)(mask, sec):
+    if path in WRITE_PATHS or may_read(mask, sec):
         return None
-    cls = refusal(mask, sec, write)[1]
-    if cls == 'plain_bit':
-        return 'F11a/write_without_WRITEABLE_requirements_met' if write else 'F11a/read_without_READABLE_requirements_met'
-    if cls == 'no_permission_bit' and not write:
+    if refusal(mask, sec, False)[1] == 'no_permission_bit':
         return 'F11a/read_with_no_read_permission_bit'
     return None
 
@@ -670,7 +676,26 @@ class _Probe:
 
 
 def judge(env, cell, plan, got, after, follow):
-    """Oracle for one cell. Returns a list of (signature, what)."""
+    """Oracle for one cell. Returns a list of (signature, what). Cells whose only reason for refusal is a missing
+    READABLE/WRITEABLE bit while requirement bits of that direction are set and met ('plain_bit') are judged under
+    both readings of "readable"/"writable" (strict bit, code-base convention); either one may hold."""
+    strict = _judge(env, cell, plan, got, after, follow)
+    if not strict:
+        return strict
+    _kind, mask, sec, path, _bearer = cell
+    write = path in WRITE_PATHS
+    if not (may_write if write else may_read)(mask, sec) and refusal(mask, sec, write)[1] == 'plain_bit':
+        _convention[0] = True
+        try:
+            lenient = _judge(env, cell, plan, got, after, follow)
+        finally:
+            _convention[0] = False
+        if not lenient:
+            return []
+    return strict
+
+
+def _judge(env, cell, plan, got, after, follow):
     kind, mask, sec, path, bearer = cell
     op, opcode = OP_OF[path]
     write = path in WRITE_PATHS
